@@ -22,6 +22,8 @@ import (
 	"fmt"
 	"go/ast"
 	"go/token"
+	"os"
+	"path/filepath"
 	"regexp"
 	"sort"
 	"strings"
@@ -882,6 +884,35 @@ func init() {
 		allWrites, _ := clientAccesses(p, allMethods, "Write")
 		scopeReads, _ := clientAccesses(p, roots, "Read")
 		ppw := append(paramPointeeWrites(sp, "smtp:"), paramPointeeWrites(p, "")...)
+		// package log: receiver-field writes of the methods of the logger types (a logger is shared by all
+		// connections of a Client and is called under per-connection locks only)
+		var logWrites [][2]string
+		if len(os.Args) > 1 {
+			lp := load(filepath.Join(os.Args[1], "log"))
+			var lnames []string
+			for n, d := range lp.funcs {
+				if d.Recv != nil {
+					lnames = append(lnames, n)
+				}
+			}
+			sort.Strings(lnames)
+			for _, n := range lnames {
+				paths, _, _ := lockProgram(lp, "log:", n)
+				seenW := map[string]bool{}
+				for _, pa := range paths {
+					for _, ev := range pa {
+						if ev.kind == "Write" && !seenW[ev.name] {
+							seenW[ev.name] = true
+							logWrites = append(logWrites, [2]string{"log:" + n, ev.name})
+						}
+					}
+				}
+			}
+		}
+		for _, w := range logWrites {
+			em.ident(w[0])
+			em.ident(w[1])
+		}
 		for _, w := range ppw {
 			em.ident(w[0])
 			em.ident(w[1])
@@ -984,6 +1015,15 @@ func init() {
 		emit("(* assignments through pointer PARAMETERS (function, left-hand side) in packages smtp and mail: writes to objects of the caller *)\n")
 		emit("Definition param_pointee_writes : list (list N * list N) :=\n  [")
 		for i, w := range ppw {
+			if i > 0 {
+				emit(";\n   ")
+			}
+			emit("(%s, %s)", em.names[w[0]], em.names[w[1]])
+		}
+		emit("].\n")
+		emit("(* package log: fields of a logger written by its own methods (method, field) *)\n")
+		emit("Definition log_method_writes : list (list N * list N) :=\n  [")
+		for i, w := range logWrites {
 			if i > 0 {
 				emit(";\n   ")
 			}
